@@ -89,6 +89,27 @@ add('C19',
     BASE_NOTE + "sparse.COO is modelled as a coordinate list whose duplicates add when densified.",
     "Coq proof (sum-of-indicator lemma, induction over placements, nia) + vm_compute correspondence + exhaustive oracle", "5/C19")
 
+LAT_NOTE = BASE_NOTE + ("np.linalg.lstsq / solve are modelled by normal equations / Cramer's rule in exact rational arithmetic on the very float inputs the "
+    "implementation received; results are compared with tolerance 1e-10 x condition number; exactly singular inputs are None in the model. ")
+add('C17',
+    "Coq theorems over Q: indices->coordinates->indices and back are identities for non-parallel vectors (None for parallel ones); frame_peaks is exactly the "
+    "filter r <= p < frame - r (both axes) in index order with p = zero + i a + j b; position and number of entries of the mgrid layout; drop_zero removes "
+    "exactly (0,0). Tie: all of these in exact rationals vs the numpy implementation, incl. integer lattices with peaks exactly ON the boundary.",
+    LAT_NOTE + "Polar <-> cartesian round trip involves arctan2/sin/cos: sampled only.",
+    "Coq proof (field over Q, list induction) + exact-rational correspondence + oracle", "5/C17")
+add('C06',
+    "Coq theorems over Q for any number of points: the Cramer solution solves the weighted normal equations, which minimises the weighted cost for "
+    "non-negative weights; uniqueness; invariance under rescaling all weights; linearity in the response (= affine covariance: zero maps by the affine map, a and b by "
+    "its linear part); exact lattices recovered exactly. Tie: wls3 / resid2 vs affinematch / weighted_optimize / optimize / error on the same floats.",
+    LAT_NOTE + "'at least three affinely independent indices of positive weight' appears as the premise 'the fit exists' (determinant of the normal equations non-zero).",
+    "Coq proof (ring/field identities over Q, nra for the quadratic form) + exact-rational correspondence + oracle", "5/C06")
+add('C20',
+    "Coq theorems over Q: exact affine data are recovered exactly by the column-wise weighted fit for any centre and weights; with residuals the fit is the "
+    "least-squares optimum for the squared weights; the centre returned by find_center is a fixed point of the transformation. Tie: get_transformation / "
+    "do_transformation / find_center in exact rationals vs lstsq/solve on the same floats.",
+    LAT_NOTE,
+    "Coq proof (field over Q, uniqueness of the normal-equation solution) + exact-rational correspondence + oracle", "5/C20")
+
 NOT_YET = "check not built yet in this round (work in progress; design in DESIGN.md section 5)"
 
 def main():
